@@ -675,9 +675,13 @@ func (u *URI) RequestURI() []byte {
 	} else {
 		dst = bytesconv.AppendQuotedPath(u.requestURI[:0], u.Path())
 	}
-	if u.queryArgs.Len() > 0 {
-		dst = append(dst, '?')
-		dst = u.queryArgs.AppendBytes(dst)
+	if u.parsedQueryArgs {
+		// the argument list is the current query (possibly edited, possibly emptied);
+		// it is stale as soon as SetQueryString has been called again
+		if u.queryArgs.Len() > 0 {
+			dst = append(dst, '?')
+			dst = u.queryArgs.AppendBytes(dst)
+		}
 	} else if len(u.queryString) > 0 {
 		dst = append(dst, '?')
 		dst = append(dst, u.queryString...)
